@@ -59,6 +59,9 @@ type fpState struct {
 	last map[string][][2][]byte
 	// the option fields of the last slow-path ACK per client, as sent on the wire
 	ackFields map[int]string
+	// the option fields of the last slow-path OFFER per client since that client's last ACK, kept only where
+	// they differ from the ACK's (see inst.noteOffer)
+	offFields map[int]string
 }
 
 var loaderFields = map[string]string{
@@ -67,7 +70,7 @@ var loaderFields = map[string]string{
 }
 
 func newFPState(loader *ebpf.Loader) *fpState {
-	st := &fpState{drv: fpGetDriver(), maps: map[string]*cebpf.Map{}, last: map[string][][2][]byte{}, ackFields: map[int]string{}}
+	st := &fpState{drv: fpGetDriver(), maps: map[string]*cebpf.Map{}, last: map[string][][2][]byte{}, ackFields: map[int]string{}, offFields: map[int]string{}}
 	for _, mi := range FPMapInfos {
 		f, ok := loaderFields[mi.Name]
 		if !ok {
@@ -134,7 +137,12 @@ func (st *fpState) fingerprint() string {
 		af = append(af, fmt.Sprintf("%d:%s", c, f))
 	}
 	sort.Strings(af)
-	return strings.Join(parts, "|") + "|" + strings.Join(af, ";")
+	var of []string
+	for c, f := range st.offFields {
+		of = append(of, fmt.Sprintf("%d:%s", c, f))
+	}
+	sort.Strings(of)
+	return strings.Join(parts, "|") + "|" + strings.Join(af, ";") + "|O:" + strings.Join(of, ";")
 }
 
 // FPProbe is one request frame of the battery.
@@ -425,6 +433,12 @@ func (in *inst) fpObserve() []map[string]any {
 				r["same"] = d["wf"] == "" && d["fields"] == st.ackFields[p.C]
 				if d["wf"] == "" && d["fields"] != st.ackFields[p.C] {
 					r["diff"] = fmt.Sprintf("fast=%q slow=%q", d["fields"], st.ackFields[p.C])
+				}
+				// a DISCOVER is answered by userspace with an OFFER: where userspace sent this client one since
+				// its last ACK, the fast path's answer to a DISCOVER has to carry that OFFER's fields too
+				if of, ok := st.offFields[p.C]; ok && p.Msg == "DISCOVER" && d["wf"] == "" && d["fields"] != of {
+					r["same"] = false
+					r["diff"] = fmt.Sprintf("fast=%q slow-offer=%q", d["fields"], of)
 				}
 			}
 			if _, ok := r["diff"]; !ok {
